@@ -221,6 +221,29 @@ theorem applyAll_get (m : Mgr ν) (ops : List (Op ν)) (e : ν) (acc : List H) (
       · subst he; simp [firstOcc, firstOccFrom]
       · have : ¬ e = e' := fun c => he c.symm
         simp [he, this, h0]
+    | fire e' =>
+      simp only [netRegs]
+      exact ih _ _ (by simpa [Mgr.applyOp] using h0)
+
+theorem applyAll_snoc (m : Mgr ν) (ops : List (Op ν)) (op : Op ν) :
+    m.applyAll (ops ++ [op]) = (m.applyAll ops).applyOp op := by
+  simp [Mgr.applyAll, List.foldl_append]
+
+/-- every firing of an interleaved history sees the net registrations made before it -/
+theorem runHistory_spec (done ops : List (Op ν)) :
+    (Mgr.empty.applyAll done).runHistory ops = specFires done ops := by
+  induction ops generalizing done with
+  | nil => rfl
+  | cons op ops ih =>
+    cases op with
+    | fire e =>
+      simp only [Mgr.runHistory, specFires]
+      congr 1
+      · exact applyAll_get Mgr.empty done e [] rfl
+      · have := ih (done ++ [.fire e]); rwa [applyAll_snoc] at this
+    | add e h => simp only [Mgr.runHistory, specFires]; have := ih (done ++ [.add e h]); rwa [applyAll_snoc] at this
+    | del e h => simp only [Mgr.runHistory, specFires]; have := ih (done ++ [.del e h]); rwa [applyAll_snoc] at this
+    | clear e => simp only [Mgr.runHistory, specFires]; have := ih (done ++ [.clear e]); rwa [applyAll_snoc] at this
 
 theorem applyAll_nodup (m : Mgr ν) (ops : List (Op ν)) (e : ν) (hn : (m e).Nodup) :
     ((m.applyAll ops) e).Nodup := by
